@@ -160,8 +160,15 @@ def index_cache_follows_inputs(prog, rule):
         if f.cls is not c or f.name in ('_set_cache', '_set_phases', '_load_chemicals'):
             continue
         cfg = None
+        # the instance under construction / modification: `self`, or the local bound to a new instance in a classmethod
+        recv = 'self'
+        if f.params and f.params[0] == 'cls':
+            for n in walk_no_nested(f.node):
+                if isinstance(n, ast.Assign) and isinstance(n.value, ast.Call) and src(n.value.func) in ('_new', 'cls.__new__', 'object.__new__') \
+                        and isinstance(n.targets[0], ast.Name):
+                    recv = n.targets[0].id
         for n in walk_no_nested(f.node):
-            if not (isinstance(n, ast.Call) and isinstance(n.func, ast.Attribute) and src(n.func.value) == 'self'):
+            if not (isinstance(n, ast.Call) and isinstance(n.func, ast.Attribute) and src(n.func.value) == recv):
                 continue
             rb = eff.rebinds(c, n.func.attr)
             if not (rb & inputs) or n.func.attr == '_set_cache' or '_index_cache' in rb and n.func.attr not in ('_set_phases', '_load_chemicals'):
@@ -178,9 +185,9 @@ def index_cache_follows_inputs(prog, rule):
                     if nd.kind != 'stmt':
                         continue
                     for x in ast.walk(h):
-                        if isinstance(x, ast.Call) and src(x.func) == 'self._set_cache':
+                        if isinstance(x, ast.Call) and src(x.func) == recv + '._set_cache':
                             return True
-                        if isinstance(x, ast.Call) and isinstance(x.func, ast.Attribute) and src(x.func.value) == 'self' \
+                        if isinstance(x, ast.Call) and isinstance(x.func, ast.Attribute) and src(x.func.value) == recv \
                                 and x.func.attr not in ('_set_phases', '_load_chemicals') and '_index_cache' in eff.rebinds(c, x.func.attr) and nd is not node:
                             return True
                 return False
